@@ -86,7 +86,11 @@ def run_word(ds, word, n_iters):
     started = [None] * n_iters
     finished = [None] * n_iters
     clock = 0
-    for w in list(word) + [i for i in range(n_iters)] * 1000:
+    def order():
+        yield from word
+        while True:  # after the word: round robin until every iterator is exhausted
+            yield from range(n_iters)
+    for w in order():
         if all(f is not None for f in finished):
             break
         if finished[w] is not None:
@@ -98,8 +102,8 @@ def run_word(ds, word, n_iters):
             outs[w].append(next(its[w]))
         except StopIteration:
             finished[w] = clock
-        if clock > 10000:
-            raise Violation('iteration-does-not-end', 'more than 10000 next() calls')
+        if clock > 400000:
+            raise Violation('iteration-does-not-end', 'more than 400000 next() calls')
     # X is a victim if another iterator started strictly inside X's lifetime
     victim = [any(j != i and started[i] < started[j] < finished[i] for j in range(n_iters)) for i in range(n_iters)]
     alternations = sum(1 for a, b in zip(word, word[1:]) if a != b)
@@ -241,6 +245,14 @@ def run_shard(tier, idx, nshards, rec, known):
                                     'word': list(wd)}
                             if not one(case):
                                 return [out]
+    if idx == 0:
+        for stage in ('reshuffle', 'shuffle_once', 'local', 'reshuffle_items', 'reshuffle_catch'):
+            for n in (300, 33000, 70000):
+                if stage in ('reshuffle_items', 'reshuffle_catch') and n > 33000:
+                    continue
+                case = {'stage': stage, 'n': n, 'buffer': 50, 'seed': 7, 'iters': 1, 'word': []}
+                if not one(case):
+                    return [out]
     o2 = drive(lambda c: rec.case(c, nontrivial(c, check(c)), ['stage:' + c['stage'], 'random',
                                                                 'compose:' + str(c.get('compose'))], size=c['n']),
                st_case(), N_RANDOM[tier], rec, known, seed() * 1000 + idx)
